@@ -192,7 +192,7 @@ def classify_failure(pid: str, sig: dict, findings: list[dict]):
     for f in findings:
         if f.get("status") != "known":
             continue
-        if pid not in f.get("properties", []):
+        if pid not in f.get("properties", []) and "*" not in f.get("properties", []):
             continue
         for region in f.get("regions", []):
             if _match_region(region, sig):
